@@ -46,6 +46,7 @@ class Task:
         self.invoke_ev = None
         self.return_ev = None
         self.abandoned = False
+        self.park = None
         self.thread = threading.Thread(target=self._run, name=name, daemon=True)
         self.ident = None
 
@@ -91,6 +92,12 @@ class Sim:
         self.switches = 0
         self.sched_h = hashlib.sha256()     # digest of the (task, place) switch sequence
         self.line_probe = None              # callable(frame) -> None, for reach probes
+        self.hot_files = ()                 # file-name suffixes of the hot zone (line mode only)
+        self.hot_k = 40
+        self.hot_salt = 0
+        self.hot_counter = 0
+        self.hot_max_stall = 400_000
+        self.passes = {}
         self.aborted = None
 
     # -- clock ---------------------------------------------------------------
@@ -177,12 +184,25 @@ class Sim:
 
     def _runnable(self):
         out = []
+        parked = []
         for t in self.tasks:
             if t.done:
                 continue
             if t.blocked_on is not None and t.blocked_on.locked():
                 continue
+            if t.park is not None:
+                code, target, deadline = t.park
+                if self.passes.get(code, 0) < target and self.steps < deadline:
+                    parked.append(t)
+                    continue
+                t.park = None
+                self.stats["probe.parks_released_after_another_task_passed"] += 1
             out.append(t)
+        if not out and parked:
+            for t in parked:            # nobody else can run: a stalled task simply continues
+                t.park = None
+            self.stats["probe.parks_released_because_alone"] += len(parked)
+            return parked
         return out
 
     def run_tasks(self):
@@ -226,12 +246,27 @@ class Sim:
         return None
 
     def _line(self, frame, event, arg):
+        if event == "return":
+            if self.hot_files and frame.f_code.co_filename.endswith(self.hot_files):
+                code = frame.f_code
+                self.passes[code] = self.passes.get(code, 0) + 1
+            return self._line
         if event == "line":
             t = self.cur
             if t is None or t.ident != _thread.get_ident():
                 return self._line
             self.steps += 1
             t.countdown -= 1
+            if self.hot_files and frame.f_code.co_filename.endswith(self.hot_files) and self.steps <= self.step_cap:
+                # hot zone (code working on process-wide shared objects): now and then a task is *stalled* at a
+                # line there until some other task has gone through the same function, which is what a narrow
+                # check-then-act window needs.  Which visits stall is a pure function of one per-run salt.
+                self.hot_counter += 1
+                if ((self.hot_counter * 2654435761 + self.hot_salt) >> 9) % self.hot_k == 0:
+                    code = frame.f_code
+                    t.park = (code, self.passes.get(code, 0) + 1, self.steps + self.hot_max_stall)
+                    t.countdown = 0
+                    self.stats["probe.stalls_in_hot_zone"] += 1
             if t.countdown <= 0:
                 if self.steps > self.step_cap:
                     # let the task run to the end un-pre-empted; run_tasks raises afterwards
